@@ -107,7 +107,7 @@ def run(ctx):
                 r.inst({"unknown_encoding_edge": "returns Err, builds no decoder" if ok else f"builds {builds}"}, ok)
                 if not ok:
                     r.violate(fn.id, "unknown-encoding", f"an encoding not handled explicitly still constructs {builds}", rec["file"], t[5])
-    return [r, rule_carry(facts), rule_cursor(facts, "C10-CURSOR", ["glaredb_ext_parquet"], 8), rule_dictfresh(facts)]
+    return [r, rule_carry(facts), rule_cursor(facts, "C10-CURSOR", ["glaredb_ext_parquet"], 8), rule_dictfresh(facts), rule_sibarms(facts)]
 
 
 def rule_carry(facts):
@@ -175,6 +175,50 @@ def rule_dictfresh(facts):
             if not ok:
                 r.violate(fn.id, "stale-dictionary-validity", f"a path reaches the NULL-slot marking at line {m.line} without replacing the dictionary array or its validity: slots "
                           "invalidated for an earlier dictionary stay invalid and valid entries of the new dictionary decode as NULL", rec["file"], m.line)
+    return r
+
+
+def rule_sibarms(facts):
+    """Every page decoder handles two cases, with and without definition levels (NULLs). Apart from skipping NULL positions, the two arms
+    advance the same decoder state: the set of state-mutating calls on `self` (field, method) of the two arms must be equal. An arm that
+    lacks an update the other one performs (cursor advance, previous-value buffer, running index) decodes a nullable column
+    differently from a required one."""
+    from .mir import disc_switches
+    r = RuleResult("C10-SIBARMS", "the HasDefinitions and NoDefinitions arms of every page decoder perform the same set of state-mutating calls on self", floor=4)
+    for rec in facts.all_fns(["glaredb_ext_parquet"], contains="Definitions"):
+        if "::tests::" in rec["id"] or "testutil" in rec["id"] or "::column::encoding::" not in rec["id"]:
+            continue
+        fn = Fn(rec)
+        for b, pl, t in disc_switches(fn):
+            ty = fn.locals[pl[0]] if not pl[1] else ""
+            if "Definitions" not in ty:
+                continue
+            arms = {v: fn.reachable_from(tgt, avoid=[b]) for v, tgt in switch_edges(t) if v is not None}
+            if len(arms) < 2:
+                continue
+            common = set.intersection(*arms.values())
+            out = {}
+            for v, region in arms.items():
+                names = set()
+                for c in fn.calls():
+                    if c.bb not in region - common:
+                        continue
+                    for a in c.args:
+                        if a[0] in ("c", "m") and not a[1][1] and fn.locals[a[1][0]].lstrip().startswith("&mut"):
+                            o = fn.origin(a, at=c.bb, through_calls=("::deref_mut", "::as_mut", "::as_mut_slice"))
+                            if o[0] == "arg" and o[1] == 1:
+                                flds = [p_[1] for p_ in (o[2] if len(o) > 2 and isinstance(o[2], list) else []) if isinstance(p_, list) and p_[0] == "f"]
+                                if flds:
+                                    names.add(f"{flds[0]}.{c.name.rsplit('::', 1)[-1]}")
+                out[v] = names
+            vs = list(out.values())
+            inter = set.intersection(*vs)
+            diff = sorted(set.union(*vs) - inter)
+            r.functions.add(fn.id)
+            r.inst({"fn": fn.id, "mutating_calls_per_arm": {str(k): len(v) for k, v in out.items()}, "only_in_one_arm": diff}, not diff)
+            if diff:
+                r.violate(fn.id, "arms-disagree:" + ",".join(diff), f"the two Definitions arms differ in the decoder state they update ({', '.join(diff)} in one arm only): nullable and required "
+                          "columns of the same encoding are decoded differently", rec["file"], t[5] if len(t) > 5 else rec["line"])
     return r
 
 CLAIM = {
